@@ -80,7 +80,9 @@ def escOfByte (b : UInt8) : Tok := .esc (hexDigitUpper (b.toNat / 16)) (hexDigit
 def utf8 (c : Char) : List UInt8 := String.utf8EncodeChar c
 
 /-- RFC 3986 percent-decoding of the UTF-8 encoding of a string, token by token: the meaning
-of "decoded" in C01/C02/C14 (a stray `%` stands for itself, `+` is not a space) -/
+of "decoded" in C01/C02/C14 (a stray `%` stands for itself, `+` is a plus sign: this reading
+cannot tell `+` from `%2B`; for a query key / value C01 also states the form reading, where a
+raw `+` is a space — `Canonicalize.formStr`, FX-C01-PLUS) -/
 def pctTok : Tok → List UInt8
   | .raw c => utf8 c
   | .esc h1 h2 => [byteOf h1 h2]
